@@ -2,6 +2,7 @@
 points with assorted buffers, and the writers of the process-global `random` state."""
 import hashlib
 import random
+import re
 import warnings
 
 import numpy as np
@@ -239,7 +240,7 @@ def real_section(cases):
                 res = sim.execute(prog, shots=case["shots"], initial_state=init)
                 rec["result"] = ["ok", [[repr(o) for o in b.outcome] for b in res.branches][:40]]
             except Exception as e:  # noqa: BLE001
-                rec["result"] = ["raise", type(e).__name__, str(e)[:120]]
+                rec["result"] = ["raise", type(e).__name__, re.sub(r"0x[0-9a-f]+", "0x..", str(e))[:120]]
             rec["ncalls"] = CTL.count
             rec["kinds"] = list(CTL.kinds)
             after = (snap_prog(prog), snap_state(init), snap_cfg(ucfg))
@@ -256,7 +257,7 @@ def real_section(cases):
                     sim.execute(prog, shots=case["shots"], initial_state=init)
                     rec["rerun"] = ["ok"]
                 except Exception as e:  # noqa: BLE001
-                    rec["rerun"] = ["raise", type(e).__name__, str(e)[:120]]
+                    rec["rerun"] = ["raise", type(e).__name__, re.sub(r"0x[0-9a-f]+", "0x..", str(e))[:120]]
                 rec["rerun_prog"] = snap_prog(prog)
             # the other entry points of the property on the same objects
             rnd2 = random.getstate()
